@@ -28,7 +28,9 @@ import (
 // not authenticate), "replay" (A=session id: the last message sent under it, again),
 // "idle" (A=milliseconds the ages are shifted by, B=whole seconds: then REAL time passes, with the
 // socket idle, until the ages are B s + a margin; the model sees Tick B),
-// "restart" (interface Down then Up: every peer is stopped and started).
+// "restart" (interface Down then Up: every peer is stopped and started),
+// "keepalive" (a keepalive-only transmission: the peer's persistent keepalive is switched on through UAPI,
+// which calls SendKeepalive at once, and off again).
 type Ev struct {
 	K string `json:"k"`
 	A uint64 `json:"a,omitempty"`
@@ -201,6 +203,14 @@ func (r *runner) do(e Ev) Obs {
 		} else {
 			out = r.w.Take()
 		}
+	case "keepalive":
+		pkHex := fmt.Sprintf("public_key=%x\n", r.p.Pub[:])
+		err1, o1 := r.w.Set(pkHex + "persistent_keepalive_interval=65535\n")
+		err2, o2 := r.w.Set(pkHex + "persistent_keepalive_interval=0\n")
+		if err1 != nil || err2 != nil {
+			panic(fmt.Sprint("uapi set failed: ", err1, err2))
+		}
+		out = cosim.Out{Sent: append(o1.Sent, o2.Sent...), Written: append(o1.Written, o2.Written...), Settled: o1.Settled && o2.Settled}
 	case "restart":
 		if err := r.w.Dev.Down(); err != nil {
 			panic(err)
@@ -365,6 +375,7 @@ const (
 	aForgeRetired
 	aReplay
 	aRestart
+	aKeepalive
 )
 
 func (r *runner) sidOfIndex(idx uint32) (uint64, bool) {
@@ -454,6 +465,8 @@ func (r *runner) resolve(kind int, arg uint64, rnd *rand.Rand) []Ev {
 		return []Ev{{K: "forge", A: evs[0].A, B: v}}
 	case aRestart:
 		return []Ev{{K: "restart"}}
+	case aKeepalive:
+		return []Ev{{K: "keepalive"}}
 	case aSend:
 		return []Ev{{K: "send"}}
 	case aTick:
@@ -583,7 +596,7 @@ type weighted struct {
 var randomMix = []weighted{
 	{aCI, 14}, {aCR, 14}, {aRecvPrev, 7}, {aRecvCur, 9}, {aRecvNext, 8}, {aRecvRetired, 6}, {aRecvUnaccepted, 3},
 	{aSend, 14}, {aTick, 6}, {aTickEdge, 12}, {aInitiate, 4}, {aRespondStale, 2}, {aRespondNow, 3},
-	{aForgeNext, 7}, {aForgeCur, 3}, {aForgePrev, 2}, {aForgeRetired, 2}, {aReplay, 3}, {aRestart, 5},
+	{aForgeNext, 7}, {aForgeCur, 3}, {aForgePrev, 2}, {aForgeRetired, 2}, {aReplay, 3}, {aRestart, 5}, {aKeepalive, 9},
 }
 
 var tickChoices = []uint64{1, 4, 6, 45, 61, 119, 121, 164, 166, 179, 181}
@@ -619,7 +632,7 @@ func runRandom(rnd *rand.Rand, depth int) Case {
 			follow = []int{aRecvRetired, aRecvRetired, aRecvUnaccepted, aForgeRetired, aSend}[rnd.Intn(5)]
 		} else if kind == aTickEdge && rnd.Intn(10) < 6 {
 			// use the aged keys right away
-			follow = []int{aSend, aSend, aRecvCur, aRecvCur, aRecvPrev, aRecvNext}[rnd.Intn(6)]
+			follow = []int{aSend, aKeepalive, aKeepalive, aRecvCur, aRecvCur, aRecvPrev, aRecvNext}[rnd.Intn(7)]
 		}
 		evs := r.resolve(kind, tickChoices[rnd.Intn(len(tickChoices))], rnd)
 		for _, e := range evs {
@@ -675,7 +688,7 @@ type absEv struct {
 	arg  uint64
 }
 
-var alphabet7 = []absEv{{aCI, 0}, {aCR, 0}, {aRecvPrev, 0}, {aRecvCur, 0}, {aRecvNext, 0}, {aRecvRetired, 0}, {aSend, 0}, {aTick, 61}, {aTick, 121}, {aForgeNext, 0}, {aRestart, 0}}
+var alphabet7 = []absEv{{aCI, 0}, {aCR, 0}, {aRecvPrev, 0}, {aRecvCur, 0}, {aRecvNext, 0}, {aRecvRetired, 0}, {aSend, 0}, {aTick, 61}, {aTick, 121}, {aForgeNext, 0}, {aRestart, 0}, {aKeepalive, 0}}
 
 // the extended alphabet: also short ticks (5 s spacing), timer-style initiation, stale response
 var alphabetFull = append(append([]absEv{}, alphabet7...), absEv{aTick, 4}, absEv{aTick, 45}, absEv{aInitiate, 0}, absEv{aRespondStale, 0}, absEv{aRespondNow, 0},
@@ -769,6 +782,8 @@ func stepInts(e Ev, o Obs) []uint64 {
 		k, a = 7, e.A
 	case "restart":
 		k = 8
+	case "keepalive":
+		k = 9
 	}
 	v := []uint64{k, a, b, optInt(o.Init), b2i(o.Resp), b2i(o.Tun)}
 	for _, s := range []Slot{o.Prev, o.Cur, o.Next} {
